@@ -5,4 +5,5 @@ CONSTANTS Objs = {"a", "b", "c"}
   MaxOps = 2
   CompIdx = FALSE
   CompToDo = TRUE
+  IsolateErrors = TRUE
 INVARIANT NoViolation
